@@ -381,6 +381,8 @@ class R1(object):
                 return ("e", ("flush", other), t)
             if om == "raiseB":
                 return ("e", ("flushB", other), t)
+            if om in ("fcancel", "fcancelraise"):
+                return ("e", ("flushcancel", other), t)
         if fm == "raise":
             return ("e", ("flush", kind), t)
         if fm == "raiseB":
